@@ -1664,7 +1664,7 @@ fn index_case(ctx: &mut Ctx, sub: u64, only: Option<(String, usize)>) {
 
 pub fn run(ctx: &mut Ctx) {
     if let Some(case) = ctx.replay_only.clone() {
-        if !super::c13_more::replay(ctx, &case) { replay(ctx, &case); }
+        if !super::c13_more::replay(ctx, &case) && !super::c13_seek::replay(ctx, &case) { replay(ctx, &case); }
         return;
     }
     // a panic inside a case (an assumption of the harness about written files no longer holds, e.g.
@@ -1695,6 +1695,7 @@ pub fn run(ctx: &mut Ctx) {
         case(ctx, "bambig", sub, |c| bam_big_case(c, sub, None));
     }
     super::c13_more::run(ctx);
+    super::c13_seek::run(ctx);
 }
 
 /// Hand-written boundary cases, run before anything random: one request per branch of the model
